@@ -120,4 +120,35 @@ example : resolveR 3 (.int 0) (.dict []) = some (.ok (.int 0), []) := by rfl
 example : getDotted "S.X" (.dict [("S", .dict [])]) = .keyErr := by decide +kernel
 example : NoIdx ["S", "X"] := by intro seg h; simp at h; rcases h with h | h <;> subst h <;> decide +kernel
 
+/-! ### Segments that read as integer literals (`int(seg)` succeeds): indices, also from the end -/
+
+/-- a segment that reads as an integer literal never names an entry of a section: `get_dotted_key("S.-1", …)` and
+    `"S.1"` are missing keys even when the section has the entries `"-1"` / `"1"` -/
+theorem step_section_integer_literal (seg : String) (kvs : List (String × V)) (i : Nat) (h : segIndex? seg = some i) :
+    step seg (.dict kvs) = .keyErr := by
+  simp [step, h]
+
+/-- a negative integer literal indexes a list from its end, within bounds -/
+theorem step_list_from_end (seg : String) (xs : List V) (k : Nat) (h : parseIntLit seg.toList = some (true, k))
+    (hk : k ≠ 0) (hle : k ≤ xs.length) :
+    step seg (.list xs) = match xs[xs.length - k]? with | some v => .found v | Option.none => .keyErr := by
+  have hi : segIndex? seg = some k := by simp [segIndex?, h]
+  have hf : segFromEnd seg = true := by simp [segFromEnd, h, hk]
+  simp only [step, hi, seqAt?, hf, hle, if_true]
+  cases xs[xs.length - k]? <;> rfl
+
+/-- … and is a missing key beyond them -/
+theorem step_list_from_end_out_of_range (seg : String) (xs : List V) (k : Nat) (h : parseIntLit seg.toList = some (true, k))
+    (hk : k ≠ 0) (hgt : xs.length < k) : step seg (.list xs) = .keyErr := by
+  have hi : segIndex? seg = some k := by simp [segIndex?, h]
+  have hf : segFromEnd seg = true := by simp [segFromEnd, h, hk]
+  have : ¬ k ≤ xs.length := by omega
+  simp [step, hi, seqAt?, hf, this]
+
+example : parseIntLit "-1".toList = some (true, 1) := by decide +kernel
+example : parseIntLit " +1_0 ".toList = some (false, 10) := by decide +kernel
+example : parseIntLit "1__0".toList = none := by decide +kernel
+example : getDotted "L.-1" (.dict [("L", .list [.int 1, .int 2, .int 3])]) = .found (.int 3) := by decide +kernel
+example : getDotted "S.-1" (.dict [("S", .dict [("-1", .int 1)])]) = .keyErr := by decide +kernel
+
 end Labrea
